@@ -601,7 +601,8 @@ func (m *Monitors) onERS(inv *simapi.Invocation, out kit.Outcome) {
 			statusWrite = c
 		}
 	}
-	nPodActions := len(updateDeletes) + sumInts(createdOn)
+	// every pod create or delete counts, clean-up deletions included ("two syncs ... that create or delete pods")
+	nPodActions := len(updateDeletes) + len(cleanupDeletes) + sumInts(createdOn)
 	key := v.RS.Namespace + "/" + v.RS.Name + "/" + string(v.RS.UID)
 	now := time.Unix(0, inv.VTimeNanos)
 	if nPodActions > 0 {
